@@ -324,3 +324,18 @@ def build_case(pg: dict, seed: int, cls_name: str | None = None, via: str | None
         if d:
             raise DerivationWrong(via, d[0])
     return g, via
+
+
+def case_pg(case: dict) -> dict:
+    """the plain graph of a case: stored explicitly, or (very long chains) regenerated from its seed"""
+    if "pg" in case:
+        return pg_from_json(case["pg"])
+    import random
+
+    from . import gen
+
+    return gen.scale_pg(random.Random(case["gseed"]), case["cls"], case["scale"])
+
+
+def case_graph_for_sample(case: dict):
+    return case["pg"] if "pg" in case else f"chain of {case['scale']} backbone atoms (gen.scale_pg, seed {case['gseed']})"
